@@ -207,9 +207,12 @@ struct OverProbe {
             Case c;
             c.def = in.second;
             std::vector<X> anchors;
+            // "all boxes": one case in eight keeps an inverted bound pair (lo > hi on some axis), for which every
+            // coordinate is outside by the definition (c < lo or c > hi)
+            const bool keep_inverted = (in.second.empty() ? 0 : in.second[0] % 8) == 0;
             for (auto & b : in.first) {
                 X a = from_bits<X>(b.first), z = from_bits<X>(b.second);
-                if (z < a) {
+                if (z < a && !keep_inverted) {
                     std::swap(a, z);
                 }
                 c.lo.push_back(to_bits<X>(a));
@@ -363,6 +366,9 @@ void register_all()
     OverProbe<std::size_t, 4, double, 2>::reg();
     OverProbe<double, 4, float, 3>::reg();
     OverProbe<unsigned, 4, double, 4>::reg();
+    OverProbe<uint16_t, 2, float, 2>::reg();   // narrow unsigned coordinates: subject to integer promotion in comparisons
+    OverProbe<uint8_t, 3, double, 1>::reg();
+    OverProbe<short, 1, float, 3>::reg();
     OverArray<std::size_t, 1>::reg();
     OverArray<int, 2>::reg();
     OverArray<unsigned, 3>::reg();
